@@ -16,6 +16,7 @@
 #include "pathrun.h"
 #include "reflect_gen.h"
 #include <Vector/BLF/Exceptions.h>
+#include <Vector/BLF/UncompressedFile.h>
 
 using namespace Vector::BLF;
 using kit::MemFile;
@@ -153,6 +154,40 @@ static FrameResult frame_record(ObjectHeaderBase * o, uint32_t code, const std::
     long os = emitted >= 16 ? (long) kit::rd32(b, 8) : -1, ot = emitted >= 16 ? (long) kit::rd32(b, 12) : -1;
     if (os > 0x3fffffff) os = -2;
     r.putb("sig", sig).put("hsField", hs).put("hvField", hv).put("osField", os).put("otField", ot);
+    // the same bytes must reach the uncompressed stream the library writes objects into, wherever the log
+    // container boundaries fall (at the object's end, inside its padding, inside its payload)
+    bool ufSame = true;
+    std::string ufWhy;
+    bool idempotent = false;
+    if (!threw) {
+        // an encoder whose output depends on its own previous run (objectSize circularity, listed findings) is
+        // judged by the size/consume/re-encode facts, not here
+        MemFile again;
+        try { o->write(again); idempotent = (again.buf == b); } catch (...) {}
+    }
+    if (idempotent && emitted >= 16 && emitted <= (1 << 20)) {
+        std::set<long> sizes = {emitted, emitted - 1, emitted - 2, emitted - 3, os > 0 ? os : emitted};
+        if (emitted <= 4096) sizes.insert(7);
+        for (long c : sizes) {
+            if (c <= 0 || !ufSame) continue;
+            UncompressedFile uf;
+            uf.setDefaultLogContainerSize((uint32_t) c);
+            uf.setBufferSize(emitted + 64);
+            try { o->write(uf); } catch (...) { ufSame = false; ufWhy = "threw"; break; }
+            long tp = (long) uf.tellp();
+            uf.setFileSize(tp);
+            std::vector<uint8_t> back((size_t) emitted + 8, 0xee);
+            uf.read(reinterpret_cast<char *>(back.data()), emitted + 8);
+            long got = (long) uf.gcount();
+            back.resize((size_t) (got < 0 ? 0 : got));
+            if (tp != emitted || got != emitted || back != b) {
+                ufSame = false;
+                ufWhy = "container size " + std::to_string(c) + ": tellp " + std::to_string(tp) + " read back " + std::to_string(got) + " of " + std::to_string(emitted);
+            }
+        }
+    }
+    r.putb("ufSame", ufSame);
+    if (!ufWhy.empty()) r.puts("ufWhy", ufWhy);
     // padding bytes (everything behind objectSize) must be zero
     bool padZero = true;
     for (long i = os; os >= 0 && i < emitted; i++) if (b[(size_t) i] != 0) padZero = false;
